@@ -28,12 +28,20 @@ static _Bool hist_other_client_step(void) { return 0; }
 static void do_merge(void) { ASSERT(nmerge < MAXM, "harness bound: merges"); int k = nmerge++; static const u64 VALS[MAXM] = { 5, 9, 18, 33, 64, 130 }; in_val[k] = VALS[k];   /* concrete, pairwise distinct, overlapping bits: a symbolic value makes 'pending != 0' a symbolic branch and with it every queue word (no verdict in 10 min) */
   if (!cancelled) { merged_sum += in_val[k]; merged_or |= in_val[k]; last_merged = in_val[k]; any_merge = 1; }
   dispatch_source_merge_data(DS, in_val[k]); }
+static _Bool w_returned, handler_after_w; static int w_calls;
+static void do_cancel_and_wait(void) {   /* 'W': dispatch_source_cancel_and_wait from the client thread (only legal without a cancel handler: NO_CANCEL_HANDLER configuration) */
+  dispatch_source_cancel_and_wait(DS); w_calls++;
+  if (!cancelled) { cancelled = 1; seq_cancel_stamp = ++stamp; }
+  ASSERT(handler_depth == 0, "CANCEL-AND-WAIT: no event handler is running when it returns");
+  ASSERT(IR_LD64(IR_LD64(DS + P_OFF_ds_refs_h) + P_OFF_du_state) == 0, "CANCEL-AND-WAIT: when it returns the source is no longer registered with the event system (cancelled earlier, twice, or only now)");
+  w_returned = 1; }
 static void do_cancel(void) { dispatch_source_cancel(DS); if (!cancelled) { cancelled = 1; seq_cancel_stamp = ++stamp; } }
 static _Bool hist_other_callout(u64 ctxt, u64 f) {
   if (f == FN_EVENT) {
     if (handler_depth) reentered = 1; handler_depth++; handler_runs++;
     ASSERT(IR_LD64(TSD(ir_cur) + P_OFF_tsd_queue) == TQ, "the event handler runs on the source's target queue");
     if (cancel_runs) handler_after_cancelh = 1;
+    if (w_returned) handler_after_w = 1;
     if (cancelled && (cancel_in_handler || 1)) ran_after_cancel = ran_after_cancel | (cancel_in_handler);     /* cancelled from the handler (or from an item on the target queue): never again */
     if (susp > 0) suspended_run = 1;
     u64 d = dispatch_source_get_data(DS);
@@ -55,7 +63,9 @@ void harness(void) {
   DS = dispatch_source_create(KIND == 0 ? G__dispatch_source_type_data_add : KIND == 1 ? G__dispatch_source_type_data_or : G__dispatch_source_type_data_replace, 0, 0, TQ);
   ASSERT(DS != 0, "source created");
   dispatch_source_set_event_handler_f(DS, FN_EVENT);
+#ifndef NO_CANCEL_HANDLER
   dispatch_source_set_cancel_handler_f(DS, FN_CANCELH);
+#endif
 #ifdef REG_MERGE_CANCEL
   dispatch_source_set_registration_handler_f(DS, FN_REGH);
 #endif
@@ -66,7 +76,7 @@ void harness(void) {
 #define STEP() if (pos < NOPS) { char c = OPS[pos]; pos++; \
     if (c == 'm') do_merge(); else if (c == 'R') { if (npend > 0) run_one_worker(0); } \
     else if (c == 'S') { dispatch_suspend(DS); susp++; } else if (c == 'r') { susp--; dispatch_resume(DS); } \
-    else if (c == 'C') do_cancel(); else if (c == '^') { pos++; /* the handler did not run at that point: the nested op is skipped */ } }
+    else if (c == 'C') do_cancel(); else if (c == 'W') do_cancel_and_wait(); else if (c == '^') { pos++; /* the handler did not run at that point: the nested op is skipped */ } }
   STEP() STEP() STEP() STEP() STEP() STEP() STEP() STEP()
   ASSERT(pos >= NOPS, "harness bound: sequence too long");
   for (int r = 0; r < 8 && npend > 0; r++) run_one_worker(0);
@@ -86,8 +96,17 @@ void harness(void) {
     if (any_merge) ASSERT(last_delivered == last_merged, "NO-LOSS (REPLACE): the final non-zero merge is the last value delivered");
 #endif
   }
+  ASSERT(!handler_after_w, "CANCEL-AND-WAIT: no event handler invocation starts after dispatch_source_cancel_and_wait has returned");
+#ifdef NO_CANCEL_HANDLER
+  if (cancelled && susp == 0) { ASSERT(cancel_runs == 0, "no cancellation handler is installed in this configuration");
+#else
   if (cancelled && susp == 0) { ASSERT(cancel_runs == 1, "CANCEL-HANDLER: the cancellation handler runs exactly once");
+#endif
+#ifndef NO_CANCEL_HANDLER   /* (with dispatch_source_cancel_and_wait the registration state is judged at the moment it returns, see do_cancel_and_wait: a custom source that was cancelled-and-waited before its
+                               first invoke is still "installed" by that invoke afterwards - a state flag only, custom sources have no kernel registration, and descriptor-backed sources never take that path
+                               because they are not direct on this platform: not a violation of the property, and not asserted) */
     ASSERT(IR_LD64(IR_LD64(DS + P_OFF_ds_refs_h) + P_OFF_du_state) == 0, "FINAL STATE: once cancellation has completed the source is no longer registered with the event system, however and whenever it was cancelled");
+#endif
 #if KIND == 0
     ASSERT(delivered_sum <= merged_sum, "no value is delivered that was not merged");
 #endif
